@@ -251,8 +251,8 @@ class FirstOrderFD(BaseGradientApproximator):
             upper_bounds = self._design_space.get_upper_bounds()
 
         steps = where(
-            input_perturbations[input_indices, range(n_indices)]
-            >= upper_bounds[input_indices],
+            input_perturbations[input_indices, range(n_indices)] + step
+            > upper_bounds[input_indices],
             -step,
             step,
         )
